@@ -269,30 +269,45 @@ theorem gemSetCharAt_regenerated (hx : Gen.GemCode.gemSetCharAt_extracted = true
            | some e =>
              have hp : Part e rs.length := hv.2 c e rfl hg
              setCharAt_tail rs e idx hp [hr, H.initialized, H.clone, H.ensure, hg])
-/-- the loop of `Repeat`: `k` more rounds of `acc = acc.Add(s)` -/
-theorem gem_repeat_loop (s : GStr) (count : Int) (cond : GStr × Int → HM Bool) (body : GStr × Int → HM (GStr × Int))
-    (hc : ∀ st h, cond st h = (h, .ok (decide (st.2 < count)), []))
-    (hb : ∀ st h, body st h = ((add st.1 s h).1, .ok ((add st.1 s h).2.1, st.2 + 1), (add st.1 s h).2.2)) :
-    ∀ (k : Nat) (acc : GStr) (i : Int) (h : Heap), (count - i).toNat = k →
-      whileM (k + 1) cond body (acc, i) h =
-        ((repeatN s k acc h).1, .ok ((repeatN s k acc h).2.1, i + k), (repeatN s k acc h).2.2) := by
+/-- the loop of `Repeat`: `k` more rounds of `acc = acc.Add(s)`.  The counter is abstract: `μ c` is the number of
+rounds still to do when the counter is `c` (`count - i` for `for i := 0; i < count; i++`, `remaining` itself for
+`for remaining > 0 { …; remaining-- }`), `ν` the step of the counter; its final value is not observed. -/
+theorem gem_repeat_loop (s : GStr) (μ ν : Int → Int) (hμ : ∀ c, 0 < μ c → μ (ν c) = μ c - 1)
+    (cond : GStr × Int → HM Bool) (body : GStr × Int → HM (GStr × Int))
+    (hc : ∀ st h, cond st h = (h, .ok (decide (0 < μ st.2)), []))
+    (hb : ∀ st h, body st h = ((add st.1 s h).1, .ok ((add st.1 s h).2.1, ν st.2), (add st.1 s h).2.2)) :
+    ∀ (k : Nat) (acc : GStr) (c : Int) (h : Heap), (μ c).toNat = k →
+      ∃ c', whileM (k + 1) cond body (acc, c) h =
+        ((repeatN s k acc h).1, .ok ((repeatN s k acc h).2.1, c'), (repeatN s k acc h).2.2) := by
   intro k
   induction k with
   | zero =>
-    intro acc i h hk
-    have : ¬ (i < count) := by omega
+    intro acc c h hk
+    have : ¬ (0 < μ c) := by omega
+    refine ⟨c, ?_⟩
     rw [whileM_succ, run_bind_ok (hc _ _), prep_nil]
     simp [this, run_pure, repeatN]
   | succ k ih =>
-    intro acc i h hk
-    have : i < count := by omega
+    intro acc c h hk
+    have hpos : 0 < μ c := by omega
+    obtain ⟨c', hc'⟩ := ih (add acc s h).2.1 (ν c) (add acc s h).1 (by rw [hμ c hpos]; omega)
+    refine ⟨c', ?_⟩
     rw [whileM_succ, run_bind_ok (hc _ _), prep_nil]
-    simp only [this, decide_true, if_true]
-    rw [run_bind_ok (hb _ _), ih _ _ _ (by omega)]
-    simp only [repeatN, prep_mk, Int.natCast_add, Int.cast_ofNat_Int]
-    refine Prod.ext rfl (Prod.ext ?_ rfl)
-    simp only
-    congr 2; omega
+    simp only [hpos, decide_true, if_true]
+    rw [run_bind_ok (hb _ _), hc']
+    simp only [repeatN, prep_mk]
+
+/-- the loop followed by code that reads the accumulated string only -/
+theorem gem_repeat_bind {γ : Type} (s : GStr) (μ ν : Int → Int) (hμ : ∀ c, 0 < μ c → μ (ν c) = μ c - 1)
+    (cond : GStr × Int → HM Bool) (body : GStr × Int → HM (GStr × Int)) (K : GStr × Int → HM γ) (K' : GStr → HM γ)
+    (k : Nat) (acc : GStr) (c : Int) (h : Heap) (hk : (μ c).toNat = k)
+    (hc : ∀ st h, cond st h = (h, .ok (decide (0 < μ st.2)), []))
+    (hb : ∀ st h, body st h = ((add st.1 s h).1, .ok ((add st.1 s h).2.1, ν st.2), (add st.1 s h).2.2))
+    (hK : ∀ a c', K (a, c') = K' a) :
+    (whileM (k + 1) cond body (acc, c) >>= K) h = (okM (repeatN s k acc) id >>= K') h := by
+  obtain ⟨c', hc'⟩ := gem_repeat_loop s μ ν hμ cond body hc hb k acc c h hk
+  rw [run_bind_ok hc', run_okM_bind, hK]
+  rfl
 
 theorem gemRepeat_regenerated (hx : Gen.GemCode.gemRepeat_extracted = true) (s : GStr) (count : Int) :
     Gen.GemCode.gemRepeat s count = okM (H.repeat s count) id := by
@@ -302,12 +317,18 @@ theorem gemRepeat_regenerated (hx : Gen.GemCode.gemRepeat_extracted = true) (s :
        unfold Gen.GemCode.gemRepeat
        simp only [gemAdd_regenerated (by decide)]
        unfold H.repeat
-       have hloop := fun cond body hc hb => gem_repeat_loop s count cond body hc hb count.toNat zero 0 h (by omega)
-       gem_run
-       rw [hloop]
-       all_goals first
-         | (intro st h'; gem_run; done)
-         | gem_run)
+       -- the counter: up from 0, down from `count`, or up from 1 — whichever the source uses now
+       first
+         | refine (gem_repeat_bind s (fun i => count - i) (· + 1) (by intro c _; omega) _ _ _ (fun a => pure a) _ _ _ h
+             (by omega) ?hc ?hb ?hK).trans ?_
+         | refine (gem_repeat_bind s (fun i => i) (· - 1) (by intro c _; omega) _ _ _ (fun a => pure a) _ _ _ h
+             (by omega) ?hc ?hb ?hK).trans ?_
+         | refine (gem_repeat_bind s (fun i => count + 1 - i) (· + 1) (by intro c _; omega) _ _ _ (fun a => pure a) _ _ _ h
+             (by omega) ?hc ?hb ?hK).trans ?_
+       case hc => intro st h'; first | (gem_run; done) | (gem_run <;> omega)
+       case hb => intro st h'; first | (gem_run; done) | (gem_run <;> omega)
+       case hK => intro a c'; rfl
+       gem_run)
 
 /-- `RepeatStr(s, n)` is `Repeat(New(s), n)`: layer H has no separate function, the right-hand side is the composition
 of `H.new` and `H.repeat` (heap threaded, events concatenated) -/
